@@ -26,7 +26,7 @@ type inputSpec struct {
 	explicitIDs []int // large families: one explicit value id list
 	explicitNil bool  // large families: value-less
 	rev         bool  // ask everything a second time on the same instance, in reverse order
-	sharedOnlyC bool  // shared-cell option forms only for the combinations with Complete=true (checks with a heavy oracle)
+	sharedOnlyC bool  // shared-cell and minimal option forms only for the combinations with Complete=true (checks with a heavy oracle)
 	qsRev       []string
 }
 
@@ -107,6 +107,9 @@ func (u *inputSpec) cases(fn func(c *h.Case) bool) {
 				for _, o := range u.opts {
 					if o.D == 0 && o.I == 1 && o.L == 1 && o.C == 1 {
 						continue // nothing at its default: same as the explicit form
+					}
+					if u.sharedOnlyC && o.C != 1 {
+						continue
 					}
 					c := &h.Case{Keys: u.sc.Keys, ValIDs: v.ids, Enc: enc, Opt: o, Minimal: true}
 					if !fn(c) {
